@@ -41,7 +41,10 @@ const (
 	stDone     = 4
 )
 
-const MaxTasks = 256
+const MaxTasks = 8192
+
+// maxLive bounds the number of tasks that are alive at the same time.
+const maxLive = 512
 
 // Abort is the sentinel panic value raised from a yield point when the task
 // is being torn down (budget exceeded, deadlock, end of run).
@@ -99,8 +102,10 @@ type TraceEntry struct {
 
 type Sim struct {
 	cfg   Config
-	tasks [MaxTasks]*Task
+	tasks [MaxTasks]*Task // every task ever created (for reporting)
 	n     int
+	live  [maxLive]*Task // tasks that have not ended, in creation order
+	nl    int
 	cur   *Task
 	done  chan struct{}
 
@@ -181,6 +186,11 @@ func (s *Sim) newTask(name string, client bool, parent int) *Task {
 	t.prio = 1000 + s.draw(StreamSched, 1000)
 	s.tasks[s.n] = t
 	s.n++
+	if s.nl >= maxLive {
+		panic("simrt: too many live tasks")
+	}
+	s.live[s.nl] = t
+	s.nl++
 	return t
 }
 
@@ -215,6 +225,17 @@ func (s *Sim) taskEnd(t *Task, r any) {
 		}
 	}
 	t.state = stDone
+	// drop from the live list, keeping creation order
+	for i := 0; i < s.nl; i++ {
+		if s.live[i] == t {
+			for j := i; j+1 < s.nl; j++ {
+				s.live[j] = s.live[j+1]
+			}
+			s.nl--
+			s.live[s.nl] = nil
+			break
+		}
+	}
 	s.progress()
 	close(t.Ended) // race-visible join edge
 	s.cur = nil
@@ -275,8 +296,8 @@ func (s *Sim) draw(stream, n int) int {
 
 //go:norace
 func (s *Sim) progress() {
-	for i := 0; i < s.n; i++ {
-		s.tasks[i].retried = false
+	for i := 0; i < s.nl; i++ {
+		s.live[i].retried = false
 	}
 }
 
@@ -294,8 +315,8 @@ func (s *Sim) dispatch(from *Task) bool {
 		return from != nil
 	}
 	// poll channel-blocked tasks
-	for i := 0; i < s.n; i++ {
-		t := s.tasks[i]
+	for i := 0; i < s.nl; i++ {
+		t := s.live[i]
 		if t.state == stChan && t.try != nil {
 			if t.try() {
 				t.state = stRunnable
@@ -304,11 +325,11 @@ func (s *Sim) dispatch(from *Task) bool {
 			}
 		}
 	}
-	var cand [MaxTasks]*Task
+	var cand [maxLive]*Task
 	nc := 0
 	nRunnable := 0
-	for i := 0; i < s.n; i++ {
-		t := s.tasks[i]
+	for i := 0; i < s.nl; i++ {
+		t := s.live[i]
 		switch t.state {
 		case stRunnable:
 			if t.settling {
@@ -326,8 +347,8 @@ func (s *Sim) dispatch(from *Task) bool {
 	}
 	if nc == 0 {
 		// only settling tasks (if any) are left runnable: they have settled
-		for i := 0; i < s.n; i++ {
-			t := s.tasks[i]
+		for i := 0; i < s.nl; i++ {
+			t := s.live[i]
 			if t.state == stRunnable && t.settling {
 				t.settling = false
 				cand[nc] = t
@@ -342,8 +363,8 @@ func (s *Sim) dispatch(from *Task) bool {
 	if nc == 0 {
 		// nobody can run: finished, quiescent or deadlocked
 		live := 0
-		for i := 0; i < s.n; i++ {
-			t := s.tasks[i]
+		for i := 0; i < s.nl; i++ {
+			t := s.live[i]
 			if t.state != stDone {
 				live++
 				if t.Client {
